@@ -8,7 +8,7 @@ ENGINES = {
         "instrument": [{"pkg": "control", "files": ["udp_task_pool.go"]}],
         "harness": ["harness/control/taskpool_test.go"],
         "quick_secs": 30, "thorough_secs": 400,
-        "probes": ["taskpool.overflow-burst"],
+        "probes": ["taskpool.overflow-burst", "taskpool.backlog-beyond-channel", "taskpool.emit-during-overflow-drain"],
     },
 }
 
@@ -75,9 +75,19 @@ ENGINES["quicsniff"] = {
     "probes": ["quic.name-found", "quic.name-found-v2", "quic.no-sni-hello", "quic.coalesced-initials"],
 }
 
+ENGINES["streamsniff"] = {
+    "pkg": "component/sniffing",
+    "tags": "",
+    "test": "TestSimC06Stream",
+    "instrument": [{"pkg": "component/sniffing", "files": ["sniffer.go", "conn_sniffer.go"]}],
+    "harness": ["harness/sniffing/stream_test.go"],
+    "quick_secs": 20, "thorough_secs": 300,
+    "probes": ["stream.name-found", "stream.first-read-is-the-record-header"],
+}
+
 PROPS = {
     "C05": {"engines": ["relay"], "rule_prefixes": ["c05-", "task-panic"]},
-    "C06": {"engines": ["relay", "quicsniff"], "rule_prefixes": ["c06-", "c05-corrupt", "c05-healthy-cut", "c05-lost", "task-panic"]},
+    "C06": {"engines": ["relay", "quicsniff", "streamsniff"], "rule_prefixes": ["c06-", "c05-corrupt", "c05-healthy-cut", "c05-lost", "c05-detection-delay", "task-panic"]},
     "C13": {"engines": ["taskpool", "endpoint"]},
     "C16": {"engines": ["health"], "rule_exclude_prefixes": ["select-"]},
     "C15": {"engines": ["health"], "rule_prefixes": ["select-", "alive-set-index", "task-panic"]},
